@@ -50,7 +50,7 @@ DIMS = {
     "precision": ["single", "double"],
     "footprint": [False, True],
     "analytic": [False, True],
-    "halo": ["default", "explicit"],
+    "halo": ["default", "explicit", "zero"],  # zero: an explicit `halo: 0.0` (periodic domain) is a value, not "not given"
     "modes": ["default", "explicit"],
     "levels": ["default", "full", "ol", "ol1", "ol+full", "empty+full", "empty"],
     "forcing": ["z0", "ustar", "both"],
@@ -99,6 +99,8 @@ def make_raw(rng, o):
         dom["modes"] = rng.choice([[4, 6], [6, 4], [4, 4]])
     if o["halo"] == "explicit":
         dom["halo"] = distinct(rng, 1, 12.0, 28.0, taken)[0]
+    elif o["halo"] == "zero":
+        dom["halo"] = 0.0
     lv = o["levels"]
     if lv in ("ol", "ol+full"):
         k = rng.sample(range(nz + 1), 2)
@@ -917,7 +919,33 @@ def run_parse_case(impl, rng, raw, tmpdir, idx, preset):
         ycfg, yout = None, "raises:" + type(e).__name__
     rec["yaml_equal"] = (yout == out) and (cfg == ycfg) and (cfg is None or repr(cfg) == repr(ycfg))
     rec["yaml_outcome"] = yout
+    # a caller that edits the configuration it was given (a sweep over forcing / options) and then loads the
+    # unchanged file again must get the file's content, not its own edits (history of loads)
+    if ycfg is not None and rec["yaml_equal"]:
+        try:
+            scribble_config(ycfg)
+            again = cp.load_config(path)
+            if again is ycfg or again != cfg or repr(again) != repr(cfg):
+                rec["yaml_equal"] = False
+                rec["yaml_outcome"] = "second load of the unchanged file after the caller edited the first result: differs from the dictionary parse"
+        except Exception as e:
+            rec["yaml_equal"] = False
+            rec["yaml_outcome"] = "second load raises " + type(e).__name__
     return rec
+
+
+def scribble_config(cfg):
+    """what a sweep script does to a configuration object it owns"""
+    try:
+        cfg.met.wind_dir = 123.456
+        cfg.met.ustar = 0.2345
+        cfg.solver.footprint = not cfg.solver.footprint
+        cfg.domain.halo = 7.25
+        cfg.domain.output_levels = [0]
+        for t in cfg.towers:
+            t.x, t.y = t.x + 3.5, t.y - 1.25
+    except Exception:
+        pass
 
 
 HAND_YAML = [
@@ -1271,6 +1299,11 @@ def oracle_yaml(impl, raw, tmpdir):
     a, b = run(lambda: cp.load_config(p)), run(lambda: cp.parse_config_dict(json.loads(json.dumps(raw))))
     if a != b or repr(a) != repr(b):
         return ("yaml-vs-dict", "load_config(file) = %r but parse_config_dict(dict) = %r" % (a, b))
+    if not isinstance(a, str):
+        scribble_config(a)
+        a2 = run(lambda: cp.load_config(p))
+        if a2 is a or a2 != b or repr(a2) != repr(b):
+            return ("yaml-reload-after-edit", "load_config(file), the caller edits the returned object (met.wind_dir, met.ustar, solver.footprint, domain.halo, ...), load_config(file) again on the unchanged file = %r but parse_config_dict(dict) = %r" % (a2, b))
     return None
 
 
